@@ -164,9 +164,9 @@ def run_case(case, ctx):
 
 
 def shard_main(ctx):
-    if not ctx.explore("io3d", cases(ctx), run_case, ctx.n(120, 2500)):
+    if not ctx.explore("io3d", cases(ctx), run_case, ctx.n(400, 4000)):
         return
-    ctx.explore("io2d", cases(ctx, two_d=True), run_case, ctx.n(40, 600))
+    ctx.explore("io2d", cases(ctx, two_d=True), run_case, ctx.n(120, 1000))
 
 
 def replay(case, ctx):
